@@ -227,3 +227,39 @@ def c08_plan(tier, seed):
 
 
 PLANS["C08"] = c08_plan
+
+
+def gdt_replay_lines(unknown, lines):
+    out = []
+    for e in unknown[:5]:
+        tr = open(e["_trace"]).read().split("\n")
+        n = e["_line"]
+        if e.get("op") in ("gdt_append", "gdt_dump", "gdt_load"):
+            start = n
+            while start > 1 and '"op":"gdt_reset"' not in tr[start - 1]:
+                start -= 1
+            out += tr[start - 1:n]
+        else:
+            out.append(tr[n - 1])
+    return out
+
+
+def gdt_plan(family, n_quick, n_thorough, rule, design):
+    def mk(tier, seed):
+        n = n_quick if tier == "quick" else n_thorough
+        runs = []
+        for sd in ([seed] if tier == "quick" else [seed, seed + 1, seed + 2]):
+            for prof in ("dev", "rel"):
+                runs.append({"name": "%s%d" % (family, sd), "prof": prof, "args": [family, "--seed", str(sd), "--n", str(n)]})
+        return {"design": [dict(d) for d in design], "runs": runs, "trace_module": "Trace_Gdt", "level": "model_checking",
+                "rule": rule, "assumptions": CPU_ASSUME[:1] + ADDR_ASSUME[2:] + ["descriptor formats in Gdt.tla are transcribed from SDM vol. 3 ch. 3.4.5 / 7.2.3 (AMD APM vol. 2 ch. 4.7-4.8)"],
+                "replay_lines": gdt_replay_lines}
+    return mk
+
+
+PLANS["C14"] = gdt_plan("gdt", 800, 20000,
+    "behaviours = GlobalDescriptorTable::<MAX> for MAX in {1,2,3,8,9,8192}: random append sequences of arbitrary 64-bit user descriptors and (low, high) system descriptors of all four DPLs until and beyond capacity (panics caught), logging after every append the selector, len, limit() and the tail of entries(), then the full table, load_unsafe (trapped lgdt operand vs. address of entries()[0]) and a clone; from_raw_entries on random slices incl. the three asserted failure cases; distinct = distinct (operation, arguments)",
+    ({"module": "MC_Gdt", "cfg": "MC_Gdt.cfg", "workers": 4},))
+PLANS["C15"] = gdt_plan("desc", 2000, 300000,
+    "Descriptor::tss_segment_unchecked for every pointer of the 64-bit boundary lattice + seeded random pointers (the function never dereferences), tss_segment(&'static); the four constructors and six DescriptorFlags presets; dpl() on random user/system patterns x 4 levels; field offsets/sizes of TaskStateSegment and DescriptorTablePointer by pointer arithmetic on real instances, iomap_base initial value, raw bytes of a pointer structure; distinct = distinct (operation, arguments)",
+    ({"module": "MC_Gdt", "cfg": "MC_Gdt.cfg", "workers": 4},))
